@@ -54,5 +54,20 @@ Definition complete (returncode : Z) (expected_fail : bool) (self_res : tres) : 
     match r with OK => UNEXPECTEDPASS | FAIL => EXPECTEDFAIL | _ => r end
   else r.
 
+(* mtest.py:1174: the loop logs every subtest as  i.name or f'subtest {i.number}' ; for an unnamed
+   subtest the f-string formats the number, and str(int) raises ValueError beyond 4300 digits
+   (the exception leaves TestRunTAP.parse: no result is reported at all) *)
+Definition log_raises (e : event) : bool :=
+  match e with
+  | ETest n name _ _ => negb (nonempty name) && negb (py_str_ok n)
+  | _ => false
+  end.
+Definition verdict_raises (evs : list event) : bool := existsb log_raises evs.
+
 Definition verdict (returncode : Z) (expected_fail : bool) (evs : list event) : tres :=
   complete returncode expected_fail (tap_parse RUNNING evs).
+
+(* the observable of a whole TAP test: a result, or the escaping exception *)
+Definition run_verdict (returncode : Z) (expected_fail : bool) (lines : list str) : result tres :=
+  bind (parse lines) (fun evs =>
+  if verdict_raises evs then PyErr ValueError else Ok (verdict returncode expected_fail evs)).
